@@ -46,6 +46,19 @@ func TestGowpReplayC14(t *testing.T) {
 			}
 		}
 	}
+	// history C: a global declared again together with a new name ("z, w := ...": Go assigns to the
+	// existing z); code compiled in an earlier evaluation must see the new value
+	for _, k := range []struct{ typ, v1, v2, want string }{{"int", "1", "3", "3"}, {"float64", "1.5", "2.5", "2.5"}, {"complex128", "1+2i", "3+4i", "(3+4i)"}, {"complex64", "1+2i", "3+4i", "(3+4i)"}} {
+		ir := New()
+		for j, src := range []string{"var z " + k.typ + " = " + k.v1, "func getz() " + k.typ + " { return z }", "z, w := " + k.typ + "(" + k.v2 + "), 7"} {
+			if _, err := gowpEval14(ir, src); err != nil {
+				t.Fatalf("GOWP-REPLAY-FAIL history C (%s) evaluation %d (%s): %v", k.typ, j, src, err)
+			}
+		}
+		if res, err := gowpEval14(ir, "getz()"); err != nil || fmt.Sprint(res) != k.want {
+			t.Fatalf("GOWP-REPLAY-FAIL history: var z %s = %s; func getz() %s { return z }; z, w := %s(%s), 7; getz() = %v (%v), want %s: the redeclared global no longer shares its slot", k.typ, k.v1, k.typ, k.typ, k.v2, res, err, k.want)
+		}
+	}
 	// history B: the address is taken in one evaluation, the next evaluation declares many globals at once
 	for _, many := range []int{10, 1100} {
 		ir := New()
